@@ -916,3 +916,55 @@ Proof.
     rewrite Hcall. xstep. destruct s1; unfold st_val1; xstep; reflexivity.
   - change 3 with (Z.of_N K). rewrite Hcall. xstep. destruct s1; unfold st_val1; xstep; reflexivity.
 Qed.
+
+Theorem tr_lbuf_wordend m lb bln lbs lines br bo bigz dir r o mf res d fuel :
+  mot_mem m lb bln lbs lines br bo -> lines_small lines -> lines_nl_ok lines ->
+  cell_at m br r -> cell_at m bo o -> pos_ok r o -> dir_ok dir ->
+  lbuf_wordend mf (map chop lines) (negb (bigz =? 0)) dir r o = Some res -> (mf < fuel)%nat -> (maxlen lines < fuel)%nat ->
+  callf cprog fuel (S (S (S (S (S (S d)))))) F_lbuf_wordend [VPtr lb 0; VInt bigz; VInt dir; VPtr br 0; VPtr bo 0] m
+  = let '(s, r', o') := res in Ok (st_val1 s, set_pos m br bo r' o').
+Proof.
+  intros MM Hsm Hok Hr Ho Hp Hd Hres Hmf Hf. pose proof MM as [R Hl Hne Nr No Lr Lo]. pose proof Hp as [Pr Po].
+  set (b := map chop lines) in *.
+  change (lbuf_wordend mf b (negb (bigz =? 0)) dir r o) with
+    (match (if negb (uc_isspace (lchr b r o)) then
+              match lbuf_next b dir r o with
+              | (true, r', o') => None
+              | (false, r', o') => Some ((if (dir <? 0) && is_nl (lchr b r' o') then 1 else 0), r', o')
+              end
+            else Some (0, r, o)) with
+     | None => match lbuf_next b dir r o with (_, r', o') => Some (true, r', o') end
+     | Some (nl, r, o) => wordend_from mf b (negb (bigz =? 0)) dir nl r o
+     end) in Hres.
+  enter F_lbuf_wordend cf_lbuf_wordend. rewrite exec_seq.
+  (let t := eval cbv [we_after fn_body cf_lbuf_wordend] in we_after in change t with we_after).
+  remember we_after as wa eqn:Ewa.
+  xstep. rd_chr R Hsm Hf Hr Ho Pr Po (S d).
+  rewrite (isspace_at m lb bln lbs lines r o (S (S (S (S d)))) fuel R Hl). xstep. fold b.
+  destruct (uc_isspace (lchr b r o)); cbn [negb] in Hres |- *; xstep.
+  { subst wa. apply (we_after_ok m lb bln lbs lines br bo bigz dir 0 r o mf res d fuel MM Hsm Hok Hr Ho Hp Hd); try assumption; lia. }
+  rewrite (next_call m lb bln lbs lines br bo r o dir (S d) fuel MM Hsm Hf Hr Ho Hp Hd).
+  fold b. destruct (lbuf_next b dir r o) as [[s1 r1] o1] eqn:En. xstep.
+  pose proof (lbuf_next_pos_ok lines dir r o _ _ _ Hsm (la_nonul _ _ _ _ _ R) Hd Hp En) as Hp1.
+  destruct s1; unfold st_val; [change (truth (VInt (-1))) with (@Ok bool true)|change (truth (VInt 0)) with (@Ok bool false)]; xstep.
+  { injection Hres as <-. reflexivity. }
+  destruct (mot_mem_set_pos m lb bln lbs lines br bo r1 o1 MM) as (MM1 & Hr1 & Ho1).
+  pose proof MM1 as [R1 Hl1 _ _ _ Lr1 Lo1]. pose proof Hp1 as [Pr1 Po1].
+  set (m1 := set_pos m br bo r1 o1) in *.
+  set (nl0 := if (dir <? 0) && is_nl (lchr b r1 o1) then 1 else 0) in *.
+  assert (Hnl0 : 0 <= nl0 <= 1 /\ (nl0 = 1 -> dir < 0)).
+  { unfold nl0. destruct (Z.ltb_spec dir 0); cbn [andb]; [|lia]. destruct (is_nl (lchr b r1 o1)); lia. }
+  assert (Hfinal :
+    match exec (callf cprog fuel (S (S (S (S (S d)))))) fuel wa
+               (mkst [VPtr lb 0; VInt bigz; VInt dir; VPtr br 0; VPtr bo 0; VInt nl0] m1) with
+    | ONormal st => Ok (VUndef, memm st) | OReturn v st => Ok (v, memm st) | OErr x => Err x | _ => Err EShape end
+    = let '(s, r', o') := res in Ok (st_val1 s, set_pos m br bo r' o')).
+  { subst wa. rewrite (we_after_ok m1 lb bln lbs lines br bo bigz dir nl0 r1 o1 mf res d fuel MM1 Hsm Hok Hr1 Ho1 Hp1 Hd); try tauto.
+    destruct res as [[s r'] o']. unfold m1. rewrite set_pos_set_pos by assumption. reflexivity. }
+  destruct (Z.ltb_spec dir 0) as [Ld|Ld]; xstep.
+  - rd_chr R1 Hsm Hf Hr1 Ho1 Pr1 Po1 (S d).
+    destruct (isnl_at m1 lb bln lbs lines r1 o1 (S (S (S (S d)))) fuel R1 Hl1 Hok) as (c & Hc & Hcn). rewrite Hc. xstep. fold b in Hcn. rewrite Hcn.
+    unfold nl0 in Hfinal. cbn [andb] in Hfinal.
+    destruct (is_nl (lchr b r1 o1)); cbn [b2z]; xstep; exact Hfinal.
+  - unfold nl0 in Hfinal. cbn [andb] in Hfinal. exact Hfinal.
+Qed.
